@@ -102,17 +102,24 @@ Print Assumptions C04_unmarshal_mirror.
 (* rejections of what the syntax forbids, on the concrete library CL *)
 Example C04_at_outside_filter : parse CL "@.a" = PErr ECurrentRoot.
 Proof. vm_compute. reflexivity. Qed.
+Print Assumptions C04_at_outside_filter.
 Example C04_last_outside_subscript : parse CL "$.a ? (last == 1)" = PErr ELastSubscript.
 Proof. vm_compute. reflexivity. Qed.
+Print Assumptions C04_last_outside_subscript.
 Example C04_x_flag_rejected : parse CL "$ ? (@ like_regex ""a"" flag ""x"")" = PErr ERegexX.
 Proof. vm_compute. reflexivity. Qed.
+Print Assumptions C04_x_flag_rejected.
 Example C04_private_use_rune_rejected :
   parse CL (string_of_runes [36; 91; 49; 32; 57346; 32; 50; 93]) = PErr (ELex EInvalidChar).
 Proof. vm_compute. reflexivity. Qed.
+Print Assumptions C04_private_use_rune_rejected.
 Example C04_int_range : parse CL "9223372036854775808" = PErr EIntParse.
 Proof. vm_compute. reflexivity. Qed.
+Print Assumptions C04_int_range.
 Example C04_min_int64_unwritable : parse CL "-9223372036854775808" = PErr EIntParse.
 Proof. vm_compute. reflexivity. Qed.
+Print Assumptions C04_min_int64_unwritable.
 Example C04_any_level_forms :
   parse CL "$.**{0x10 to 1_0}" = POk (mkpath true false [SConst CRoot; SAny 16 10]).
 Proof. vm_compute. reflexivity. Qed.
+Print Assumptions C04_any_level_forms.
